@@ -511,6 +511,21 @@ func seqDomain(td *typeDesc, depth int, noAbsent bool) *domain {
 		}
 		d.c = append(d.c, choice{label: "[" + lab(i) + "]", attr: at, mk: mkSeq(i)})
 	}
+	// siblings that are all present and pairwise different (appended last: the indices of the
+	// choices above do not move). In [min,max] / [max,min] one sibling is the all-absent value and
+	// in [mid,mid] the siblings are equal, so state that leaks from one sibling to the next (the
+	// nested encoder / parsing context of a sequence field is ONE object used for every element)
+	// is invisible there: it needs >= 2 elements that each hold something - for elements that are
+	// models with a sequence of their own, two non-empty inner sequences of different content and
+	// different length - in both orders, and a third element after the pair (a longer sibling
+	// after a shorter one after a longer one; 3 elements also cross the first two growth steps of
+	// an appended slice).
+	if ed.mid != ed.max {
+		d.c = append(d.c, choice{label: "[" + lab(ed.mid) + "," + lab(ed.max) + "]", attr: atMax, mk: mkSeq(ed.mid, ed.max)})
+		d.c = append(d.c, choice{label: "[" + lab(ed.max) + "," + lab(ed.mid) + "]", attr: atMax, mk: mkSeq(ed.max, ed.mid)})
+		d.c = append(d.c, choice{label: "[" + lab(ed.max) + "," + lab(ed.mid) + "," + lab(ed.max) + "]", attr: atMax, mk: mkSeq(ed.max, ed.mid, ed.max)})
+		d.c = append(d.c, choice{label: "[" + lab(ed.mid) + "," + lab(ed.max) + "," + lab(ed.mid) + "]", attr: atMax, mk: mkSeq(ed.mid, ed.max, ed.mid)})
+	}
 	d.min, d.mid, d.max = 0, first, first+1
 	return d
 }
